@@ -77,7 +77,7 @@ def defclass(name: str, *parents: str) -> int:
 for _n, _p in [
     ('object', ()),
     ('NoneType', ('object',)), ('str', ('object',)), ('int', ('object',)), ('float', ('object',)), ('bool', ('int',)),
-    ('type', ('object',)), ('function', ('object',)), ('method', ('object',)), ('datetime', ('object',)),
+    ('type', ('object',)), ('Handler', ('object',)), ('function', ('Handler',)), ('method', ('Handler',)), ('datetime', ('object',)),
     ('dict', ('object',)), ('list', ('object',)), ('tuple', ('object',)), ('set', ('object',)),
     ('BaseException', ('object',)),
     ('Exception', ('BaseException',)),
@@ -351,7 +351,7 @@ def _check_one(i: int):
         reason = s.reason_unknown()
         if os.environ.get('PYVC_NO_CVC5') != '1':
             try:
-                r2 = _cvc5_check(s.to_smt2().replace('(check-sat)', ''), max(5, _TIMEOUT_MS // 1000))
+                r2 = _cvc5_check(s.to_smt2().replace('(check-sat)', ''), max(3, min(6, _TIMEOUT_MS // 2000)))
                 if r2 == 'unsat':
                     verdict, solver = 'unsat', 'cvc5'
             except Exception:
